@@ -94,6 +94,24 @@ func Planted(r *rand.Rand) (*Grammar, []string) {
 		}
 	}
 
+	// rules referenced only under one operator: reachability must look through every operator
+	if r.Intn(3) == 0 {
+		ops := []struct {
+			k   Kind
+			tag string
+		}{{KAnd, "and"}, {KNot, "not"}, {KQuery, "query"}, {KStar, "star"}, {KPlus, "plus"}, {KCapture, "capture"}}
+		o := ops[r.Intn(len(ops))]
+		name := "Only_" + o.tag
+		add(name, Seq(Lit("o"), Un(KQuery, Ref("Deep_"+o.tag))))
+		add("Deep_"+o.tag, Lit("p"))
+		use := Un(o.k, Ref(name))
+		if o.k == KAnd || o.k == KNot {
+			top = append(top, Seq(use, Lit("o")))
+		} else {
+			top = append(top, Seq(Lit("u"), use))
+		}
+		tags = append(tags, "reachable-only-under:"+o.tag)
+	}
 	// undefined names
 	nu := 0
 	if r.Intn(3) == 0 {
@@ -176,14 +194,14 @@ func Planted(r *rand.Rand) (*Grammar, []string) {
 			tags = append(tags, "cycle-unreachable")
 		}
 	}
-	if nu == 0 && nc == 0 && len(g.Rules) == 5 {
-		tags = append(tags, "clean")
-	}
 	r.Shuffle(len(top), func(i, j int) { top[i], top[j] = top[j], top[i] })
 	g.Rules[0].E = &Expr{K: KAlt, Kids: top}
 	// shuffle the non-first rules: diagnostics must not depend on definition order
 	rest := g.Rules[1:]
 	r.Shuffle(len(rest), func(i, j int) { rest[i], rest[j] = rest[j], rest[i] })
 	g.Number()
+	if d := g.Diagnose(); len(d.Undefined)+len(d.Unused)+len(d.LeftRec)+len(d.Duplicate) == 0 {
+		tags = append(tags, "clean")
+	}
 	return g, tags
 }
